@@ -168,7 +168,7 @@ def requeue(F, R, ver):
     for bi, t, ap in pushes:
         og = Origin(p).of_operand(t['args'][1])
         ok_tp = any(l[0] == 'agg' and l[1].endswith('AckType::Complete') for l in og)
-        ok_id = any(l[0] == 'call' and l[1].endswith('pop_front') for l in og)
+        ok_id = any(l[0] == 'call' and re.search(r'VecDeque::<T, A>::(pop_front|remove)$', l[1]) for l in og)
         removes = {x[0] for x in calls_on_field(p, r'HashSet::<T, S, A>::remove$', 'inflight_ids')}
         shared_path = [r_ for r_ in removes if r_ in p.reachable_after(bi) or bi in p.reachable_after(r_)]
         R.ob('C14.requeue', '%s|pkt_ack_inner|id-stays-reserved-at-PUBREC' % ver, not shared_path,
